@@ -44,6 +44,7 @@ CONFIG = dict(
         "the transaction ids drawn by dhcpv4.New / dhcpv6.NewMessage and GetTime() are parameters of the model",
         "the oracle checks field clauses only on calls without user modifiers (completion clauses on all)",
         "scripted servers are static: they echo the xid/chaddr of the datagram they answer but do not otherwise read it",
+        "DHCPv6 modifier lists that pair a modifier inserting an identity-association OBJECT (WithOption(IA_NA/IA_TA/IA_PD)) with one that extends the message's first such option in place (WithIANA/WithIATA/WithIAPD) are not generated for the exchanges: RapidSolicit applies one list to two messages, which then share and grow that object - modifier values with state, outside the value model and outside what C13's clauses are stated for (lists that do not write these options); C16's v6mods op exercises those modifiers on single messages",
     ],
 )
 
